@@ -57,7 +57,7 @@ def prepare(dest=None, log=None):
         with open(p, "a") as f:
             for m in mods:
                 name = "verif_" + os.path.splitext(os.path.basename(m))[0]
-                vis = "pub(crate) " if m.endswith("support.rs") else ""
+                vis = "pub(crate) "
                 f.write(f'\n#[cfg(kani)]\n#[path = "{VERIF}/contracts/kani/{m}"]\n{vis}mod {name};\n')
                 log.append(f"attach: {rel} += mod {name} ({m})")
     for ent in att.get("attributes", []):
